@@ -154,9 +154,9 @@ PROPS = {
     "C02": {
         "lean": ["FH.Props.C02", "FH.Props.C02A64"],
         "engines": ["macho", "ana", "asm"],
-        "level_text": "Theorems (x86-64, for every choice and order of registers, legacy and REX encodings): stopped anywhere in `pop...; ret` the analysed rule restores exactly the rsp/rbp/return address the CPU will have (machine model runPops); stopped after any prefix of the prologue's pushes the rule finds the return address above them; after `push rbp; mov rbp, rsp; push...` it is the frame pointer rule; frameless opcodes give rules that execute the documented layout (rbp slot by position: C02_x64_rbp_position_is_push_index, for rbp pushed at any index of the register list); dispatch: __stubs/__stub_helper precedence and first-frame-only, function starts are leaves, function bytes are exactly the function's slice of the text; __stub_helper tables equal the documented dyld_stub_binder layout on both architectures; arm64 body rules. arm64 prologue/epilogue word scans: partial - modelled (FH/AnaA64.lean) and tied by correspondence and ground truth, not proved sound against a machine model. Tie: ana (hooks, byte for byte) and macho (whole modules, ground-truth walks).",
+        "level_text": "Theorems (x86-64, for every choice and order of registers, legacy and REX encodings): stopped anywhere in `pop...; ret` the analysed rule restores exactly the rsp/rbp/return address the CPU will have (machine model runPops); stopped after any prefix of the prologue's pushes the rule finds the return address above them; after `push rbp; mov rbp, rsp; push...` it is the frame pointer rule; frameless opcodes give rules that execute the documented layout (rbp slot by position: C02_x64_rbp_position_is_push_index, for rbp pushed at any index of the register list); dispatch: __stubs/__stub_helper precedence and first-frame-only, function starts are leaves, function bytes are exactly the function's slice of the text; __stub_helper tables equal the documented dyld_stub_binder layout on both architectures; arm64 body rules. x86-64 tail calls: `pop...; jmp` at every boundary (C02_x64_tail_call_exact) and the pc exactly on a jmp that follows a pop or `add rsp, imm` (C02_x64_on_tail_jmp). arm64 (FH/Props/C02A64.lean), against a machine model of the instructions with the encodings written out field by field (the bit tests of the Rust code are discharged by div/mod arithmetic, no bv_decide): any epilogue - any sequence of ldp (post-index, pre-index, signed offset; any register pair and immediate) and add sp, ended by ret / retab / b / br - analysed at any boundary yields a rule whose execution equals running the rest of the epilogue (C02_a64_epilogue_exact); the pc exactly on the tail-call branch after an sp adjustment gives NoOp (C02_a64_tail_call_after_sp_adjust); any prologue prefix - pacibsp, stp (three addressing modes), sub sp - counted from the function start or the first foreign instruction gives the rule that restores the entry sp (C02_a64_prologue_exact); once `add x29, sp, #n` has been executed the scan defers to the body rule. Hypotheses are the shape facts of real code (frame released in multiples of 16, slots 8-aligned, at most 100 instructions, sizes within the rule's fields). Tie: ana (hooks, byte for byte), macho (whole modules, ground-truth walks incl. tail calls and locals allocated after the frame setup) and asm (the generator's encodings against llvm-mc).",
         "level_note": _NOTE + " macho-unwind-info's parser (UnwindInfo::lookup, opcode field extraction) is outside the model; the model takes the parsed opcode, recomputed by the harness with the real parser, and the writer exercises regular and compressed pages.",
-        "statement": "Mach-O compact unwind: x86-64 prologue/epilogue analysis sound for all push/pop sequences; body rules exact; dispatch order; stub tables; arm64 partial (bodies and stubs proved, word scans by correspondence).",
+        "statement": "Mach-O compact unwind: x86-64 prologue/epilogue analysis sound for all push/pop sequences; body rules exact; dispatch order; stub tables; arm64 prologue/epilogue word scans proved exact against a machine model (any ldp/add/stp/sub sequence, returns and tail calls).",
     },
     "C14": {
         "technique": 'Lean 4 theorems over arbitrary module data (no panic outcome in the plan / compact-unwind dispatch / analysers) + fault injection on the implementation (byte-level corruption of generated and real sections under catch_unwind with overflow checks; this half is testing, not proof)',
